@@ -3,6 +3,23 @@
 (property text + the round's emphasis; nothing else from /verif).   usage: mkround.py <N> <emphasis-file>"""
 import json, os, subprocess, sys
 n, emph = sys.argv[1], open(sys.argv[2]).read().strip()
+with_anchors = len(sys.argv) > 3 and sys.argv[3] == '--anchors'
+def anchors_text(p):
+    """the property's own quantifier and anchors (part of the given property record), rendered as text"""
+    if not with_anchors:
+        return ''
+    out = []
+    q = p.get('quantifier') or {}
+    if q.get('text'):
+        out.append('It is meant to hold ' + q['text'] + '.')
+    a = p.get('anchors') or {}
+    if a.get('files'):
+        out.append('The property record names these source files as the places it lives in: ' + ', '.join(a['files']) + '.')
+    if a.get('state'):
+        out.append('State it talks about: ' + '; '.join(f"{x.get('name')} ({x.get('meaning')}; {x.get('where')})" for x in a['state']) + '.')
+    if a.get('mechanism'):
+        out.append('Mechanisms that establish it: ' + '; '.join(f"{x.get('name')} [{x.get('where')}]" for x in a['mechanism']) + '.')
+    return '\n\n' + '\n\n'.join(out)
 base = f'/tmp/mut{n}'
 os.makedirs(base, exist_ok=True)
 for l in open('/verif/properties.jsonl'):
@@ -20,7 +37,7 @@ Do not use `git stash` (the stash is shared with other worktrees of the same rep
 
 The library is supposed to have this property:
 
-> **{p.get('title','')}** — {text}
+> **{p.get('title','')}** — {text}{anchors_text(p)}
 
 Produce THREE independent, realistic source changes ("mutants") to the library (non-test .go files, not the mocks package), each of which
 
